@@ -109,6 +109,7 @@ type Result struct {
 	Distribution  map[string]int `json:"distribution"`
 	Disagreements []Disagreement `json:"disagreements"`
 	Violations    []Violation    `json:"violations"`
+	AllCases      []Case         `json:"all_cases,omitempty"`
 	ModelRan      bool           `json:"model_ran"`
 	ModelError    string         `json:"model_error,omitempty"`
 	Extra         map[string]any `json:"extra,omitempty"`
@@ -209,6 +210,9 @@ func main() {
 		}
 	}
 	res.DistinctNT = len(distinct)
+	if strings.HasSuffix(id, "-child") {
+		res.AllCases = c.Cases
+	}
 	// samples: first, middle, last few
 	if n := len(c.Cases); n > 0 {
 		idx := []int{0, n / 4, n / 2, 3 * n / 4, n - 1}
